@@ -268,6 +268,20 @@ BYTE_PREDICATES = {
     "is_ascii_graphic": lambda b: 33 <= b <= 126,
 }
 
+def _bytemap(f):
+    def m(eng, st, fr, t, name, rname, args):
+        b = _byte_arg(eng, st, args[0])
+        if b is None:
+            return NotImplemented
+        return K(f(b) & 0xFF)
+    return m
+
+
+BYTE_MAPS = {
+    "to_ascii_lowercase": lambda b: b + 32 if 65 <= b <= 90 else b,
+    "to_ascii_uppercase": lambda b: b - 32 if 97 <= b <= 122 else b,
+}
+
 BYTE_MODELS = {
     "<core::slice::Iter<'a, T> as core::iter::Iterator>::next": m_bytes_next,
     "<core::slice::Iter<'a, T> as core::iter::Iterator>::nth": m_bytes_nth,
@@ -275,6 +289,9 @@ BYTE_MODELS = {
 for _n, _f in BYTE_PREDICATES.items():
     BYTE_MODELS["core::num::" + _n] = _pred(_f)
     BYTE_MODELS["core::num::<impl u8>::" + _n] = _pred(_f)
+for _n, _f in BYTE_MAPS.items():
+    BYTE_MODELS["core::num::" + _n] = _bytemap(_f)
+    BYTE_MODELS["core::num::<impl u8>::" + _n] = _bytemap(_f)
 
 
 # ---- constant folding over byte-string constants (program constants such as enum mnemonics) -------------------
